@@ -54,10 +54,22 @@ type rxCtx struct {
 	s  StrVal
 }
 
-func (c *rxCtx) ascii(b *Term) {
-	if !c.st.decide(cmp("bvult", b, mkBV(8, 0x80))) {
-		panic(pathKill{"bound", "non-ASCII byte in regexp input"})
+// runeAt decodes the rune at pos (UTF-8, exactly as the regexp package steps through its input).
+func (c *rxCtx) runeAt(pos int) (*Term, int) {
+	return decodeRuneSym(c.st, c.s.b[pos:])
+}
+
+func classTerm32(r *Term, ranges []rune) *Term {
+	res := tFalse
+	for i := 0; i+1 < len(ranges); i += 2 {
+		lo, hi := uint64(ranges[i]), uint64(ranges[i+1])
+		if lo == hi {
+			res = mkOr(res, mkEq(r, mkBV(32, lo)))
+		} else {
+			res = mkOr(res, mkAnd(cmp("bvule", mkBV(32, lo), r), cmp("bvule", r, mkBV(32, hi))))
+		}
 	}
+	return res
 }
 
 func (c *rxCtx) m(re *syntax.Regexp, pos int, caps []int, k func(pos int, caps []int) bool) bool {
@@ -72,42 +84,37 @@ func (c *rxCtx) m(re *syntax.Regexp, pos int, caps []int, k func(pos int, caps [
 			if p >= len(c.s.b) {
 				return false
 			}
-			b := c.s.b[p]
-			c.ascii(b)
+			rt, n := c.runeAt(p)
 			var t *Term
 			if re.Flags&syntax.FoldCase != 0 && ((r >= 'a' && r <= 'z') || (r >= 'A' && r <= 'Z')) {
-				t = mkOr(mkEq(b, mkBV(8, uint64(r|0x20))), mkEq(b, mkBV(8, uint64(r&^0x20))))
+				t = mkOr(mkEq(rt, mkBV(32, uint64(r|0x20))), mkEq(rt, mkBV(32, uint64(r&^0x20))))
 			} else {
-				if r > 0x7f {
-					return false
-				}
-				t = mkEq(b, mkBV(8, uint64(r)))
+				t = mkEq(rt, mkBV(32, uint64(r)))
 			}
 			if !c.st.decide(t) {
 				return false
 			}
-			p++
+			p += n
 		}
 		return k(p, caps)
 	case syntax.OpCharClass, syntax.OpAnyCharNotNL, syntax.OpAnyChar:
 		if pos >= len(c.s.b) {
 			return false
 		}
-		b := c.s.b[pos]
-		c.ascii(b)
+		rt, n := c.runeAt(pos)
 		var t *Term
 		switch re.Op {
 		case syntax.OpCharClass:
-			t = classTerm(b, re.Rune, false)
+			t = classTerm32(rt, re.Rune)
 		case syntax.OpAnyCharNotNL:
-			t = mkNot(mkEq(b, mkBV(8, '\n')))
+			t = mkNot(mkEq(rt, mkBV(32, '\n')))
 		default:
 			t = tTrue
 		}
 		if !c.st.decide(t) {
 			return false
 		}
-		return k(pos+1, caps)
+		return k(pos+n, caps)
 	case syntax.OpBeginText:
 		if pos != 0 {
 			return false
